@@ -298,8 +298,17 @@ def run(tier):
             'Coq 8.16.1 kernel (coqc; coqchk in the thorough tier); vm_compute in witnesses and cases.v',
             'extraction: ExtrOcamlBasic only; OCaml 4.13.1; ocaml/conv.ml + c09_main.ml',
             'harness/impl/c09_impl.py: REAL dbstate, Compiler.compile/compile_in_tx, _compile_ql_transaction, '
-            'worker.compile_in_tx, AbstractPool.compile_in_tx; MODELLED (transliterated): the per-statement loop for '
-            'SET ALIAS / DDL, dbview.pyx + execute.pyx + binary.pyx bookkeeping, PostgreSQL (oracle class PG)',
+            'worker.compile_in_tx, AbstractPool.compile_in_tx; SOURCE TEXT TRANSLATED ON EVERY RUN and executed '
+            '(harness/translate/pyx2py.py strips only the Cython declaration layer, fail closed; .pxd attribute '
+            'defaults applied; harness/impl/pyxload.py): edb/server/dbview/dbview.pyx (DatabaseIndex, Database, '
+            'DatabaseConnectionView: parse, _compile, as_compiled, _check_in_tx_error, start, start_tx, '
+            '_apply_in_tx, on_success, on_error, tx_error, declare_savepoint, rollback_tx_to_savepoint, abort_tx, '
+            'apply_config_ops), edb/server/protocol/execute.pyx (execute), edb/server/cache/stmt_cache.pyx; '
+            'MODELLED (transliterated): the per-statement loop for SET ALIAS / DDL, the dispatch of binary.pyx '
+            'EdgeConnection.execute / _execute_rollback / main-loop error handler, dbview.serialize_state '
+            '(constant), the backend connection (scripted by the oracle), PostgreSQL (oracle class PG)',
+            'the pyx2py translator: assumes the translated bodies mean the same in CPython as in Cython '
+            '(C integer attributes become Python ints; no overflow is involved in this code)',
             'stub installer harness/rt/vrt.py for the missing native modules',
         ],
     })
